@@ -283,7 +283,7 @@ func c03R5(c *Ctx, rule string) {
 		var sends []ssa.Instruction
 		allInstrs(wr, func(i ssa.Instruction) {
 			if call, ok := i.(*ssa.Call); ok {
-				if g := call.Call.StaticCallee(); g != nil && g.Name() == "obfuscateAndSend" {
+				if g := call.Call.StaticCallee(); isFn(g, "internal/multiplex", "Stream.obfuscateAndSend") {
 					sends = append(sends, i)
 				}
 			}
@@ -318,7 +318,7 @@ func c03R5(c *Ctx, rule string) {
 		if rd != nil {
 			allInstrs(rf, func(i ssa.Instruction) {
 				if call, isC := i.(*ssa.Call); isC {
-					if g := call.Call.StaticCallee(); g != nil && g.Name() == "obfuscateAndSend" {
+					if g := call.Call.StaticCallee(); isFn(g, "internal/multiplex", "Stream.obfuscateAndSend") {
 						for _, at := range AtomsAt(i) {
 							if at.Kind == "call" && !at.Pol && at.Call.Call.StaticCallee() == isClosedF && instrDominates(rd, at.Call) {
 								ok = true
